@@ -50,9 +50,13 @@ var zzCorpus = []string{
 	"x := [[1] []]\ny := [] + [1]\nz := {}\nprint x y z\n",
 	"on key k:string\n    print k[0] k[1:] (len k) k+\"x\"\n    for c := range k\n        print c\n    end\nend\n",
 	"func h:num a:[]num m:{}num s:string\n    return a[0] + m.k + (len s) + (len a[1:])\nend\nprint (h [1] {k:2} \"s\")\n",
+	// every declared name (loop variables, parameters, variables) is used where its type is read: operand, index, argument, range
+	"for i := range 3\n    print i+1 [1 2 3][i] -i (len [i])\n    for j := range i\n        print i*j\n    end\nend\n",
+	"for e := range [1 2]\n    print e+1\nend\nfor c := range \"ab\"\n    print c+\"x\" c[0]\nend\nfor k := range {a:1}\n    print k+\"y\"\nend\n",
+	"func f:num n:num s:string\n    m := n * 2\n    t := s + \"!\"\n    return m + (len t)\nend\nx := f 1 \"a\"\nprint x+1 [x][0]\n",
 }
 
-var zzInserts = []string{"func", "1.2.3", "[]", "{}num", "foo", "\"", "#", "(", ")", "[", "]", "{", "}", ":", ":=", "=", ".", "...", "-", "!", "end", "on", "if", "else", "for", "range", "while", "return", "break", "num", "any", "x", "nope", "1", "\"s\"", "\n", " ", "//c", "and", "_", "string"}
+var zzInserts = []string{"true", "i", "func", "1.2.3", "[]", "{}num", "foo", "\"", "#", "(", ")", "[", "]", "{", "}", ":", ":=", "=", ".", "...", "-", "!", "end", "on", "if", "else", "for", "range", "while", "return", "break", "num", "any", "x", "nope", "1", "\"s\"", "\n", " ", "//c", "and", "_", "string", "[1]", "{a:1}"}
 
 // zzNIns: the quick tier uses the first INS fragments, the thorough tier all.
 func zzNIns() int {
